@@ -198,6 +198,7 @@ func (p *Protocol) Start() {
 // Stop shuts down the mini-protocol
 func (p *Protocol) Stop() {
 	p.onceStop.Do(func() {
+		p.verifEv("Stop", 0, 0, 0, 0, "", "", nil)
 		close(p.stopChan)
 
 		// Unregister protocol from muxer
@@ -404,6 +405,7 @@ func (p *Protocol) enqueueMessage(msg Message, deliveryChan chan error) error {
 		message:      msg,
 		deliveryChan: deliveryChan,
 	}
+	p.verifEv("Enq", int(msg.Type()), msgLen, 0, 0, "", "", data)
 	select {
 	case p.sendQueueChan <- outbound:
 		return nil
@@ -415,6 +417,7 @@ func (p *Protocol) enqueueMessage(msg Message, deliveryChan chan error) error {
 	}
 
 	// The message was accounted for above but never reached the queue.
+	p.verifEv("EnqAbort", int(msg.Type()), msgLen, 0, 0, "", "", data)
 	p.pendingBytesMu.Lock()
 	p.pendingSendBytes -= msgLen
 	p.pendingBytesMu.Unlock()
@@ -442,6 +445,7 @@ func (p *Protocol) SendError(err error) {
 		// additional errors are unnecessary
 		return
 	}
+	p.verifEv("Error", 0, 0, 0, 0, err.Error(), "", nil)
 	// Stop the protocol on any error to prevent further errors from being generated
 	// and to ensure the connection is properly terminated
 	p.Stop()
@@ -452,6 +456,7 @@ func (p *Protocol) sendLoop() {
 		// Close muxer send channel
 		// We are responsible for closing this channel as the sender, even through it
 		// was created by the muxer
+		p.verifEv("Exit", 0, 0, 0, 0, "send", "", nil)
 		close(p.muxerSendChan)
 		close(p.sendDoneChan)
 	}()
@@ -525,6 +530,7 @@ waitSendReadyChan:
 					}
 				}
 				payloadBuf.Write(data)
+				p.verifEv("Deq", int(msg.Type()), len(data), int64(msgCount), 0, "", "", data)
 				// After sending, decrement pendingSendBytes
 				p.pendingBytesMu.Lock()
 				p.pendingSendBytes -= len(data)
@@ -605,6 +611,7 @@ waitSendReadyChan:
 			if deliveryChan != nil && segmentPayloadLength == payloadBuf.Len() {
 				segment.SetDeliveryChan(deliveryChan)
 			}
+			p.verifEv("SegOut", 0, segmentPayloadLength, int64(payloadBuf.Len()), 0, "", "", segmentPayload)
 			select {
 			case <-p.stopChan:
 				return
@@ -625,6 +632,7 @@ waitSendReadyChan:
 }
 
 func (p *Protocol) readLoop() {
+	defer p.verifEv("Exit", 0, 0, 0, 0, "read", "", nil)
 	leftoverData := false
 	readBuffer := bytes.NewBuffer(nil)
 
@@ -646,6 +654,7 @@ func (p *Protocol) readLoop() {
 				}
 				// Add segment payload to buffer
 				readBuffer.Write(segment.Payload)
+				p.verifEv("SegIn", 0, len(segment.Payload), int64(readBuffer.Len()), 0, "", "", segment.Payload)
 			}
 		}
 		leftoverData = false
@@ -757,6 +766,7 @@ func (p *Protocol) readLoop() {
 				if p.pendingRecvBytes+msgLen <= limit {
 					p.pendingRecvBytes += msgLen
 					p.pendingRecvSizes = append(p.pendingRecvSizes, msgLen)
+					p.verifEv("MsgIn", int(msg.Type()), msgLen, int64(p.pendingRecvBytes), int64(limit), currentState.String(), "", msgData)
 					p.pendingBytesMu.Unlock()
 					break
 				}
@@ -774,6 +784,7 @@ func (p *Protocol) readLoop() {
 			p.pendingBytesMu.Lock()
 			p.pendingRecvBytes += msgLen
 			p.pendingRecvSizes = append(p.pendingRecvSizes, msgLen)
+			p.verifEv("MsgIn", int(msg.Type()), msgLen, int64(p.pendingRecvBytes), int64(limit), currentState.String(), "", msgData)
 			p.pendingBytesMu.Unlock()
 		}
 		// Add message to receive queue (blocking with shutdown checks)
@@ -798,6 +809,7 @@ func (p *Protocol) readLoop() {
 
 func (p *Protocol) recvLoop() {
 	defer func() {
+		p.verifEv("Exit", 0, 0, 0, 0, "recv", "", nil)
 		close(p.recvDoneChan)
 	}()
 
@@ -823,8 +835,10 @@ func (p *Protocol) recvLoop() {
 		case <-p.muxerDoneChan:
 			return
 		case msg := <-p.recvQueueChan:
+			p.verifEv("RecvDeq", int(msg.Type()), 0, 0, 0, "", "", nil)
 			// Handle message
 			if err := p.handleMessage(msg); err != nil {
+				p.verifEv("RecvErr", int(msg.Type()), 0, 0, 0, err.Error(), "", nil)
 				if errors.Is(err, ErrProtocolShuttingDown) {
 					// Graceful shutdown in progress
 					return
@@ -841,6 +855,7 @@ func (p *Protocol) recvLoop() {
 				if p.pendingRecvBytes < 0 {
 					p.pendingRecvBytes = 0
 				}
+				p.verifEv("Release", int(msg.Type()), size, int64(p.pendingRecvBytes), 0, "", "", nil)
 			}
 			p.pendingBytesMu.Unlock()
 		}
@@ -848,6 +863,7 @@ func (p *Protocol) recvLoop() {
 }
 
 func (p *Protocol) stateLoop(ch <-chan protocolStateTransition) {
+	defer p.verifEv("Exit", 0, 0, 0, 0, "state", "", nil)
 	var transitionTimer *time.Timer
 	var initialStateSet bool
 
@@ -861,6 +877,7 @@ func (p *Protocol) stateLoop(ch <-chan protocolStateTransition) {
 		// Set the new state
 		p.currentStateMu.Lock()
 		p.currentState = s
+		p.verifEv("State", 0, 0, 0, 0, s.String(), "", nil)
 		p.currentStateMu.Unlock()
 
 		// Mark protocol as ready to send/receive based on role and agency of the new state
@@ -911,6 +928,7 @@ func (p *Protocol) stateLoop(ch <-chan protocolStateTransition) {
 			timeout = entry.TimeoutFunc()
 		}
 		if timeout > 0 {
+			p.verifEv("TimerArm", 0, 0, int64(timeout), 0, s.String(), "", nil)
 			transitionTimer = time.NewTimer(timeout)
 		}
 	}
@@ -936,6 +954,7 @@ func (p *Protocol) stateLoop(ch <-chan protocolStateTransition) {
 		case t := <-ch:
 			nextState, err := p.nextState(p.getCurrentState(), t.msg)
 			if err != nil {
+				p.verifEv("TransErr", int(t.msg.Type()), 0, 0, 0, p.getCurrentState().String(), "", nil)
 				t.errorChan <- fmt.Errorf(
 					"%s: error handling protocol state transition: %w",
 					p.config.Name,
@@ -948,11 +967,13 @@ func (p *Protocol) stateLoop(ch <-chan protocolStateTransition) {
 				continue
 			}
 
+			p.verifEv("Trans", int(t.msg.Type()), 0, 0, 0, p.getCurrentState().String(), nextState.String(), nil)
 			setState(nextState)
 			t.errorChan <- nil
 
 		case <-getTimerChan():
 			transitionTimer = nil
+			p.verifEv("Timeout", 0, 0, 0, 0, p.getCurrentState().String(), "", nil)
 
 			p.SendError(
 				fmt.Errorf(
@@ -1018,5 +1039,6 @@ func (p *Protocol) handleMessage(msg Message) error {
 	}
 
 	// Call handler function
+	p.verifEv("Handle", int(msg.Type()), 0, 0, 0, "", "", nil)
 	return p.config.MessageHandlerFunc(msg)
 }
